@@ -99,6 +99,8 @@ func (c *regexCase) run() {
 	}
 	// the partial index statements in the order of inspect.go's indexesQuery
 	var partials []string
+	type xidx struct{ name, stmt string }
+	var xidxs []xidx
 	rows, err := db.Query(fmt.Sprintf("SELECT `il`.`name`, `il`.`unique`, `il`.`origin`, `il`.`partial`, `m`.`sql` FROM pragma_index_list('%s') AS il JOIN sqlite_master AS m ON il.name = m.name", t.Name))
 	if err != nil {
 		c.skipped = "index-query"
@@ -112,8 +114,48 @@ func (c *regexCase) run() {
 		if origin != "pk" && partial {
 			partials = append(partials, stmt.String)
 		}
+		if origin != "pk" {
+			xidxs = append(xidxs, xidx{name, stmt.String})
+		}
 	}
 	rows.Close()
+	// indexes with expression parts: statement and, per part, expression? / desc?
+	var xtoks []string
+	for _, xi := range xidxs {
+		if strings.ContainsAny(xi.name, "'") {
+			c.skipped = "index-name-quote"
+			return
+		}
+		prow, err := db.Query(fmt.Sprintf("SELECT name, desc FROM pragma_index_xinfo('%s') WHERE key = 1 ORDER BY seqno", xi.name))
+		if err != nil {
+			c.skipped = "index-xinfo"
+			return
+		}
+		flags, hasX := "", false
+		for prow.Next() {
+			var n sql.NullString
+			var d sql.NullBool
+			prow.Scan(&n, &d)
+			f := "c"
+			if !n.Valid {
+				f, hasX = "x", true
+			}
+			if d.Bool {
+				f += "1"
+			} else {
+				f += "0"
+			}
+			flags += f
+		}
+		prow.Close()
+		if hasX {
+			xtoks = append(xtoks, hx(xi.stmt)+"|"+flags)
+		}
+	}
+	xLn := "-"
+	if len(xtoks) > 0 {
+		xLn = strings.Join(xtoks, ";")
+	}
 	var fks []string
 	for _, f := range t.FKs {
 		fks = append(fks, fmt.Sprintf("%s|%s|%s|%s", hx(fmt.Sprint(f.ID)), hxs(f.Cols, ":"), hx(f.RefTable), hxs(f.RefCols, ":")))
@@ -123,7 +165,7 @@ func (c *regexCase) run() {
 		fkLn = strings.Join(fks, ";")
 	}
 	text := strings.TrimSpace(t.SQL)
-	c.caseLn = fmt.Sprintf("%s %s %s %s %s %s", hx(text), hxs(cols, ","), hxs(hidden, ","), hxs(pk, ","), hxs(partials, ","), fkLn)
+	c.caseLn = fmt.Sprintf("%s %s %s %s %s %s %s", hx(text), hxs(cols, ","), hxs(hidden, ","), hxs(pk, ","), hxs(partials, ","), fkLn, xLn)
 	// the real recovery
 	s0, _, err := inspectDB(db)
 	switch {
@@ -136,7 +178,7 @@ func (c *regexCase) run() {
 		}
 	default:
 		tb := s0.Tables[0]
-		var gens, preds, syms, checks []string
+		var gens, preds, syms, checks, xparts []string
 		auto := "-"
 		for _, col := range tb.Columns {
 			for _, a := range col.Attrs {
@@ -154,6 +196,15 @@ func (c *regexCase) run() {
 					preds = append(preds, hx(p.P))
 				}
 			}
+			var xs []string
+			for _, p := range ix.Parts {
+				if r, ok := p.X.(*schema.RawExpr); ok {
+					xs = append(xs, hx(r.X))
+				}
+			}
+			if len(xs) > 0 {
+				xparts = append(xparts, strings.Join(xs, ","))
+			}
 		}
 		for _, f := range tb.ForeignKeys {
 			syms = append(syms, hx(f.Symbol))
@@ -169,7 +220,11 @@ func (c *regexCase) run() {
 			}
 			return strings.Join(l, ",")
 		}
-		c.obs = fmt.Sprintf("gens=%s auto=%s preds=%s fks=%s checks=%s", j(gens), auto, j(preds), j(syms), j(checks))
+		xp := "-"
+		if len(xparts) > 0 {
+			xp = strings.Join(xparts, ";")
+		}
+		c.obs = fmt.Sprintf("gens=%s auto=%s preds=%s fks=%s checks=%s xparts=%s", j(gens), auto, j(preds), j(syms), j(checks), xp)
 	}
 }
 
@@ -214,6 +269,9 @@ func miniTexts() [][]string {
 							[]string{k("CREATE TABLE") + " t" + tight + "z int " + k("CONSTRAINT") + sp + id + sp + k("REFERENCES") + " p" + tight + "q))"},
 							[]string{k("CREATE TABLE") + " t" + tight + "z int, y int, " + k("CONSTRAINT") + sp + id + sp + k("FOREIGN KEY") + tight + "z, y) " + k("REFERENCES") + " p" + tight + "q, r))"},
 							[]string{k("CREATE TABLE") + " t" + tight + id + " int " + k("REFERENCES") + " p" + tight + "q), " + k("CONSTRAINT") + " f2 " + k("FOREIGN KEY") + tight + id + ") " + k("REFERENCES") + " p" + tight + "r))"},
+							// expression index
+							[]string{"CREATE TABLE t (" + id + " int, z int)", k("CREATE INDEX") + " i " + k("ON") + " t" + tight + "(" + id + " + 1)" + sp + k("DESC") + ", z, (z || ')'))"},
+							[]string{"CREATE TABLE " + id + " (y int, z int)", k("CREATE UNIQUE INDEX") + " i " + k("ON") + sp + id + tight + "(max(y, 1)), z" + sp + k("DESC") + ")" + sp + k("WHERE") + sp + "y > 0"},
 							// partial index
 							[]string{"CREATE TABLE t (" + id + " int)", k("CREATE INDEX") + " i " + k("ON") + " t" + tight + id + ") " + k("WHERE") + sp + id + " > 0"},
 						)
@@ -233,10 +291,10 @@ func runRegex(w *out.W, tier string) {
 	}
 	var cases []*regexCase
 	for i, st := range miniTexts() {
-		cases = append(cases, &regexCase{id: fmt.Sprintf("m%05d", i), stmts: st, key: fmt.Sprintf("mini%d", i%28)})
+		cases = append(cases, &regexCase{id: fmt.Sprintf("m%05d", i), stmts: st, key: fmt.Sprintf("mini%d", i%32)})
 	}
 	w.Exhaust = true
-	w.Set("exhaustive_bound", "9 names x 4 quotings x 2 keyword cases x 4 spacings x 2 paren styles x 14 statement templates")
+	w.Set("exhaustive_bound", "9 names x 4 quotings x 2 keyword cases x 4 spacings x 2 paren styles x 16 statement templates")
 	for i, sc := range corpusScripts {
 		cases = append(cases, &regexCase{id: fmt.Sprintf("k%03d", i), stmts: splitFirstTable(sc), key: "corpus"})
 	}
